@@ -122,6 +122,17 @@ theorem stack_depth_invariant (env : Env) (sidx : Nat) (cur ops : List POp) (off
           · simpa using Nat.le_of_not_lt hle
           · exact htr sn hsn
 
+/-- ✓gen — the lock-time constants of the code are the ones the model's CLTV / CSV use -/
+theorem locktime_consts_match :
+    GoBT.Gen.intConsts.lookup "interpreter.LockTimeThreshold" = some lockTimeThreshold ∧
+    GoBT.Gen.intConsts.lookup "bt.SequenceLockTimeIsSeconds" = some seqLockTimeSeconds ∧
+    GoBT.Gen.intConsts.lookup "bt.SequenceLockTimeDisabled" = some (seqLockTimeDisabled : Int) ∧
+    GoBT.Gen.intConsts.lookup "bt.MaxTxInSequenceNum" = some (maxTxInSequenceNum : Int) ∧
+    (do let a ← GoBT.Gen.intConsts.lookup "bt.SequenceLockTimeIsSeconds"
+        let b ← GoBT.Gen.intConsts.lookup "bt.SequenceLockTimeMask"
+        pure (a.toNat ||| b.toNat)) = some seqLockTimeMask := by
+  decide +kernel
+
 /-! ### numeric layer (number.go) -/
 
 /-- truthiness: empty and all-zero strings are false, and so is "negative zero" -/
